@@ -1,16 +1,29 @@
 package metric
 
 import (
+	"context"
 	"fmt"
+	"math"
 	"strconv"
 	"strings"
 	"testing"
+
+	otelmetric "go.opentelemetry.io/otel/metric"
+	"go.opentelemetry.io/otel/sdk/metric/metricdata"
 )
 
 // TestVerifC07Valid: parameter validation of the two histogram aggregations (sdk/metric/aggregation.go).
 //
 //	vexpo <gen> <maxSize> <maxScale> => ok|err
 //	vhist <gen> <bounds,> => ok|err          (boundaries as integers)
+//	path <gen> <kind 0..6> <i|f> <inst bounds,|-> <reader agg> <view -|n|c> <view agg> <d|c> | <values 1,> | <values 2,>
+//	     => <err 0|1> none | S | G | H <bounds,> <counts,> <count> <sum> <min|-> <max|-> |
+//	        E <scale> <posOff> <pos,> <negOff> <neg,> <zero> <count> <min|-> <max|-> <sum>
+//	  the ways a histogram configuration reaches the aggregator through the public API: instrument option
+//	  (WithExplicitBucketBoundaries), reader aggregation selector, NewView mask, hand-written View function;
+//	  agg: - (nil) | d (default) | x (drop) | h:<bounds,>:<noMinMax> | e:<maxSize>:<maxScale>:<noMinMax>;
+//	  kind: 0 Counter 1 UpDownCounter 2 Histogram 3 Gauge 4-6 the observable forms; two collections into one
+//	  re-used ResourceMetrics, the second one is observed.
 func TestVerifC07Valid(t *testing.T) {
 	out := vOpen(t)
 	defer out.Close()
@@ -58,6 +71,8 @@ func TestVerifC07Valid(t *testing.T) {
 				expo(f[1], int32(ms), int32(sc))
 			case "vhist":
 				hist(f[1], parse(f[2]))
+			case "path":
+				c07ReplayPath(out, f)
 			}
 		}
 		return
@@ -71,6 +86,10 @@ func TestVerifC07Valid(t *testing.T) {
 	r := &vRand{s: vSeed()}
 	n := vN(2000)
 	for i := 0; i < n; i++ {
+		if r.Intn(3) == 0 {
+			c07GenPath(out, r)
+			continue
+		}
 		if r.Bool() {
 			expo("rnd", int32(r.U64()), int32(r.Intn(64)-32))
 			if r.Intn(4) == 0 {
@@ -93,4 +112,383 @@ func TestVerifC07Valid(t *testing.T) {
 		}
 		hist("rnd", b)
 	}
+}
+
+// ---------------------------------------------------------------- configuration paths (public API)
+
+func c07PCsv(xs []int64) string {
+	if len(xs) == 0 {
+		return "-"
+	}
+	ss := make([]string, len(xs))
+	for i, x := range xs {
+		ss[i] = strconv.FormatInt(x, 10)
+	}
+	return strings.Join(ss, ",")
+}
+
+func c07PParse(s string) []int64 {
+	if s == "-" || s == "" {
+		return nil
+	}
+	var r []int64
+	for _, p := range strings.Split(s, ",") {
+		v, err := strconv.ParseInt(p, 10, 64)
+		if err != nil {
+			panic(err)
+		}
+		r = append(r, v)
+	}
+	return r
+}
+
+func c07PFloats(xs []int64) []float64 {
+	r := make([]float64, len(xs))
+	for i, x := range xs {
+		r[i] = float64(x)
+	}
+	return r
+}
+
+// c07PAgg parses the aggregation token; nil for "-".
+func c07PAgg(s string) Aggregation {
+	f := strings.Split(s, ":")
+	switch f[0] {
+	case "d":
+		return AggregationDefault{}
+	case "x":
+		return AggregationDrop{}
+	case "h":
+		return AggregationExplicitBucketHistogram{Boundaries: c07PFloats(c07PParse(f[1])), NoMinMax: f[2] == "1"}
+	case "e":
+		ms, _ := strconv.Atoi(f[1])
+		sc, _ := strconv.Atoi(f[2])
+		return AggregationBase2ExponentialHistogram{MaxSize: int32(ms), MaxScale: int32(sc), NoMinMax: f[3] == "1"}
+	}
+	return nil
+}
+
+func c07ReplayPath(out *vOut, f []string) {
+	// path gen kind num inst reader vk vagg temp | v1 | v2
+	kind, _ := strconv.Atoi(f[2])
+	c07RunPath(out, f[1], kind, f[3], f[4], f[5], f[6], f[7], f[8] == "d", c07PParse(f[10]), c07PParse(f[12]))
+}
+
+func c07PNum(x float64) string {
+	if x != math.Trunc(x) || math.Abs(x) > 1<<62 {
+		return fmt.Sprintf("f%016x", math.Float64bits(x))
+	}
+	return strconv.FormatFloat(x, 'f', 0, 64)
+}
+
+func c07RunPath(out *vOut, gen string, kind int, num, inst, rdrAgg, vk, vagg string, delta bool, v1, v2 []int64) {
+	t := "c"
+	if delta {
+		t = "d"
+	}
+	in := fmt.Sprintf("path %s %d %s %s %s %s %s %s | %s | %s", gen, kind, num, inst, rdrAgg, vk, vagg, t,
+		c07PCsv(v1), c07PCsv(v2))
+	defer func() {
+		if e := recover(); e != nil {
+			out.Line("%s => panic", in)
+		}
+	}()
+	ctx := context.Background()
+	ropts := []ManualReaderOption{}
+	if delta {
+		ropts = append(ropts, WithTemporalitySelector(func(InstrumentKind) metricdata.Temporality {
+			return metricdata.DeltaTemporality
+		}))
+	}
+	if rdrAgg != "-" {
+		ra := c07PAgg(rdrAgg)
+		ropts = append(ropts, WithAggregationSelector(func(InstrumentKind) Aggregation { return ra }))
+	}
+	rdr := NewManualReader(ropts...)
+	popts := []Option{WithReader(rdr)}
+	switch vk {
+	case "n":
+		popts = append(popts, WithView(NewView(Instrument{Name: "*"}, Stream{Aggregation: c07PAgg(vagg)})))
+	case "c":
+		va := c07PAgg(vagg)
+		popts = append(popts, WithView(func(i Instrument) (Stream, bool) {
+			return Stream{Name: i.Name, Description: i.Description, Unit: i.Unit, Aggregation: va}, true
+		}))
+	}
+	mp := NewMeterProvider(popts...)
+	defer func() { _ = mp.Shutdown(ctx) }()
+	m := mp.Meter("c07")
+	var cur []int64
+	var rec func(v int64)
+	var err error
+	if num == "i" {
+		cb := otelmetric.WithInt64Callback(func(_ context.Context, o otelmetric.Int64Observer) error {
+			for _, v := range cur {
+				o.Observe(v)
+			}
+			return nil
+		})
+		switch kind {
+		case 0:
+			var c otelmetric.Int64Counter
+			c, err = m.Int64Counter("p")
+			rec = func(v int64) { c.Add(ctx, v) }
+		case 1:
+			var c otelmetric.Int64UpDownCounter
+			c, err = m.Int64UpDownCounter("p")
+			rec = func(v int64) { c.Add(ctx, v) }
+		case 2:
+			var c otelmetric.Int64Histogram
+			if inst != "-" {
+				c, err = m.Int64Histogram("p", otelmetric.WithExplicitBucketBoundaries(c07PFloats(c07PParse(inst))...))
+			} else {
+				c, err = m.Int64Histogram("p")
+			}
+			rec = func(v int64) { c.Record(ctx, v) }
+		case 3:
+			var c otelmetric.Int64Gauge
+			c, err = m.Int64Gauge("p")
+			rec = func(v int64) { c.Record(ctx, v) }
+		case 4:
+			_, err = m.Int64ObservableCounter("p", cb)
+		case 5:
+			_, err = m.Int64ObservableUpDownCounter("p", cb)
+		case 6:
+			_, err = m.Int64ObservableGauge("p", cb)
+		}
+	} else {
+		cb := otelmetric.WithFloat64Callback(func(_ context.Context, o otelmetric.Float64Observer) error {
+			for _, v := range cur {
+				o.Observe(float64(v))
+			}
+			return nil
+		})
+		switch kind {
+		case 0:
+			var c otelmetric.Float64Counter
+			c, err = m.Float64Counter("p")
+			rec = func(v int64) { c.Add(ctx, float64(v)) }
+		case 1:
+			var c otelmetric.Float64UpDownCounter
+			c, err = m.Float64UpDownCounter("p")
+			rec = func(v int64) { c.Add(ctx, float64(v)) }
+		case 2:
+			var c otelmetric.Float64Histogram
+			if inst != "-" {
+				c, err = m.Float64Histogram("p", otelmetric.WithExplicitBucketBoundaries(c07PFloats(c07PParse(inst))...))
+			} else {
+				c, err = m.Float64Histogram("p")
+			}
+			rec = func(v int64) { c.Record(ctx, float64(v)) }
+		case 3:
+			var c otelmetric.Float64Gauge
+			c, err = m.Float64Gauge("p")
+			rec = func(v int64) { c.Record(ctx, float64(v)) }
+		case 4:
+			_, err = m.Float64ObservableCounter("p", cb)
+		case 5:
+			_, err = m.Float64ObservableUpDownCounter("p", cb)
+		case 6:
+			_, err = m.Float64ObservableGauge("p", cb)
+		}
+	}
+	var rm metricdata.ResourceMetrics // re-used for both collections
+	for _, vals := range [][]int64{v1, v2} {
+		cur = vals
+		if rec != nil {
+			for _, v := range vals {
+				rec(v)
+			}
+		}
+		if e := rdr.Collect(ctx, &rm); e != nil {
+			out.Line("%s => collect-error", in)
+			return
+		}
+	}
+	res := "none"
+	nm := 0
+	for _, sm := range rm.ScopeMetrics {
+		for _, mt := range sm.Metrics {
+			nm++
+			res = c07PData(mt.Data)
+		}
+	}
+	if nm > 1 {
+		res = "multi"
+	}
+	out.Line("%s => %d %s", in, c07PB(err != nil), res)
+}
+
+func c07PB(b bool) int {
+	if b {
+		return 1
+	}
+	return 0
+}
+
+func c07PU(xs []uint64) string {
+	if len(xs) == 0 {
+		return "-"
+	}
+	ss := make([]string, len(xs))
+	for i, x := range xs {
+		ss[i] = strconv.FormatUint(x, 10)
+	}
+	return strings.Join(ss, ",")
+}
+
+func c07PExt[N int64 | float64](e metricdata.Extrema[N]) string {
+	v, ok := e.Value()
+	if !ok {
+		return "-"
+	}
+	return c07PNum(float64(v))
+}
+
+func c07PHist[N int64 | float64](d metricdata.Histogram[N]) string {
+	if len(d.DataPoints) != 1 {
+		return "multi"
+	}
+	dp := d.DataPoints[0]
+	bs := make([]string, len(dp.Bounds))
+	for i, b := range dp.Bounds {
+		bs[i] = c07PNum(b)
+	}
+	b := "-"
+	if len(bs) > 0 {
+		b = strings.Join(bs, ",")
+	}
+	return fmt.Sprintf("H %s %s %d %s %s %s", b, c07PU(dp.BucketCounts), dp.Count, c07PNum(float64(dp.Sum)),
+		c07PExt(dp.Min), c07PExt(dp.Max))
+}
+
+func c07PExpo[N int64 | float64](d metricdata.ExponentialHistogram[N]) string {
+	if len(d.DataPoints) != 1 {
+		return "multi"
+	}
+	dp := d.DataPoints[0]
+	return fmt.Sprintf("E %d %d %s %d %s %d %d %s %s %s", dp.Scale, dp.PositiveBucket.Offset,
+		c07PU(dp.PositiveBucket.Counts), dp.NegativeBucket.Offset, c07PU(dp.NegativeBucket.Counts), dp.ZeroCount,
+		dp.Count, c07PExt(dp.Min), c07PExt(dp.Max), c07PNum(float64(dp.Sum)))
+}
+
+func c07PData(d metricdata.Aggregation) string {
+	switch x := d.(type) {
+	case metricdata.Histogram[int64]:
+		return c07PHist(x)
+	case metricdata.Histogram[float64]:
+		return c07PHist(x)
+	case metricdata.ExponentialHistogram[int64]:
+		return c07PExpo(x)
+	case metricdata.ExponentialHistogram[float64]:
+		return c07PExpo(x)
+	case metricdata.Sum[int64], metricdata.Sum[float64]:
+		return "S"
+	case metricdata.Gauge[int64], metricdata.Gauge[float64]:
+		return "G"
+	}
+	return "other"
+}
+
+// c07PGenBounds: sorted / unsorted / duplicate / empty / single boundary lists (small integers).
+func c07PGenBounds(r *vRand) []int64 {
+	n := vPick(r, []int{0, 1, 2, 3, 5})
+	b := make([]int64, n)
+	cur := int64(r.Intn(20) - 10)
+	for i := range b {
+		b[i] = cur
+		cur += 1 + int64(r.Intn(6))
+	}
+	switch r.Intn(5) {
+	case 0:
+		for i := range b {
+			j := r.Intn(i + 1)
+			b[i], b[j] = b[j], b[i]
+		}
+	case 1:
+		if n > 1 {
+			b[r.Intn(n)] = b[r.Intn(n)]
+		}
+	}
+	return b
+}
+
+// c07PGenAgg: an aggregation token; valid=true restricts exponential parameters to the accepted ones (a
+// hand-written View function hands its aggregation to the aggregator without validation).
+func c07PGenAgg(r *vRand, validExpo bool) string {
+	switch r.Intn(9) {
+	case 0:
+		return "-"
+	case 1:
+		return "d"
+	case 2:
+		return "x"
+	case 3, 4, 5:
+		return fmt.Sprintf("h:%s:%d", c07PCsv(c07PGenBounds(r)), r.Intn(2))
+	default:
+		ms := vPick(r, []int{1, 2, 3, 4, 8, 20, 160})
+		sc := r.Intn(31) - 10
+		if !validExpo && r.Intn(3) == 0 {
+			ms = vPick(r, []int{0, -1, -5, 1, 4})
+			sc = vPick(r, []int{21, 25, -11, -20, 20, -10, 0})
+		}
+		return fmt.Sprintf("e:%d:%d:%d", ms, sc, r.Intn(2))
+	}
+}
+
+func c07GenPath(out *vOut, r *vRand) {
+	kind := r.Intn(7)
+	if r.Intn(3) == 0 {
+		kind = 2
+	}
+	num := vPick(r, []string{"i", "f"})
+	inst := "-"
+	if kind == 2 && r.Intn(2) == 0 {
+		inst = c07PCsv(c07PGenBounds(r))
+	}
+	rdr := "-"
+	if r.Intn(2) == 0 {
+		rdr = c07PGenAgg(r, false)
+	}
+	vk := vPick(r, []string{"-", "-", "n", "n", "c"})
+	vagg := "-"
+	switch vk {
+	case "n":
+		vagg = c07PGenAgg(r, false)
+	case "c":
+		vagg = c07PGenAgg(r, true)
+		if r.Intn(2) == 0 { // boundaries that no validation has seen: unsorted, duplicates
+			b := c07PGenBounds(r)
+			for i := range b {
+				j := r.Intn(i + 1)
+				b[i], b[j] = b[j], b[i]
+			}
+			vagg = fmt.Sprintf("h:%s:%d", c07PCsv(b), r.Intn(2))
+		}
+	}
+	monotonic := kind == 0 || kind == 4
+	vals := func() []int64 {
+		n := vPick(r, []int{0, 1, 2, 3, 6})
+		v := make([]int64, n)
+		for i := range v {
+			switch r.Intn(6) {
+			case 0:
+				v[i] = 0
+			case 1:
+				v[i] = int64(vPick(r, []int{3, 5, 6, 7, 10, 12, 100, 1000, 100000}))
+			default:
+				v[i] = int64(r.Intn(41) - 12)
+			}
+			if monotonic && v[i] < 0 {
+				v[i] = -v[i]
+			}
+			if a := uint64(max(v[i], -v[i])); a != 0 && a&(a-1) == 0 {
+				// exact powers of two sit on a bucket boundary of every scale (F14 zone of the float index; the
+				// agg leg covers them with the logged indices) — here the model uses the exact index
+				v[i] *= 3
+			}
+		}
+		return v
+	}
+	c07RunPath(out, "rnd", kind, num, inst, rdr, vk, vagg, r.Bool(), vals(), vals())
 }
